@@ -104,6 +104,9 @@ class MatrixGrader(FormulaGrader):
         # Set default_comparer as an instance property if entry_partial keys
         # are provided
         unvalidated_config = config if config is not None else kwargs
+        # Registered defaults count too (entry_partial_credit is a natural course-wide default)
+        if isinstance(unvalidated_config, dict):
+            unvalidated_config = self.apply_registered_defaults(unvalidated_config)
         entry_comparer_config = {key: unvalidated_config[key]
                                  for key in ('entry_partial_credit', 'entry_partial_msg')
                                  if key in unvalidated_config}
